@@ -251,8 +251,23 @@ def run_case_guarded(mod, case, ctx):
     """Run one case under the property's monitors.  A Violation is shrunk (when the
     module knows how) and recorded; anything else that escapes is a monitor error."""
     try:
-        mod.run_case(case, ctx)
-        return True
+        try:
+            mod.run_case(case, ctx)
+            return True
+        except (Violation, KeyboardInterrupt, SystemExit, GeneratorExit, StepBudgetExceeded):
+            raise
+        except Exception as e:
+            # The monitor itself tripped while interpreting what the code under test handed
+            # back (an ill-typed value, a missing attribute, ...).  On the unchanged tree this
+            # never happens (all tiers, many seeds); when it happens, the likeliest cause is a
+            # result of the wrong form, so it is reported as a violation - with the traceback,
+            # so that a mistake of the monitor is recognisable as such.
+            import traceback
+
+            tb = traceback.format_exc().strip().splitlines()
+            raise Violation("uninterpretable-result",
+                            "the monitor could not interpret a result of the code under test: %s: %s | %s" % (
+                                type(e).__name__, str(e)[:200], " / ".join(x.strip() for x in tb[-6:])[:600])) from e
     except Violation as v:
         small = case
         shrink = getattr(mod, "shrink", None)
